@@ -1,1 +1,590 @@
-//! (reference model; owner fills this in)
+//! Reference model of TeX's line scanner: a transcription of *TeX: The Program*
+//! §31 (`input_ln`: trailing spaces are removed), §343-§356 (`get_next` for a file: states
+//! `new_line`/`mid_line`/`skip_blanks`, control-sequence formation, `^^` notation) and §360/§362
+//! (moving to the next line, appending `end_line_char`).
+//!
+//! The model is *just in time* like TeX itself: `Lexer::next` takes the category-code function
+//! and the end-line character that are current at the moment of the call. Category codes are
+//! looked up per character as it is scanned; the end-line character is looked up when the next
+//! line is read into the buffer (§362).
+//!
+//! Besides the token the model reports, per token, where the token *started* in the source: the
+//! 1-based line number and the column (counted in characters) of its first source character. For
+//! a character that is the result of a `^^` reduction the model reports the whole source span
+//! `col_lo..=col_hi` of the `^^..` sequence (the monitor accepts any column inside it).
+//!
+//! Two switches (`Quirks`) replace exactly one TeX rule each by what texcraft does today; they are
+//! the *deviation models* of the two known findings of property C03 and are off in the reference.
+//!
+//! Nothing here depends on /repo.
+
+pub const ESCAPE: u8 = 0;
+pub const BEGIN_GROUP: u8 = 1;
+pub const END_GROUP: u8 = 2;
+pub const MATH_SHIFT: u8 = 3;
+pub const ALIGNMENT_TAB: u8 = 4;
+pub const END_OF_LINE: u8 = 5; // car_ret
+pub const PARAMETER: u8 = 6;
+pub const SUPERSCRIPT: u8 = 7; // sup_mark
+pub const SUBSCRIPT: u8 = 8;
+pub const IGNORED: u8 = 9;
+pub const SPACE: u8 = 10; // spacer
+pub const LETTER: u8 = 11;
+pub const OTHER: u8 = 12;
+pub const ACTIVE: u8 = 13;
+pub const COMMENT: u8 = 14;
+pub const INVALID: u8 = 15;
+
+/// IniTeX's category codes (§232): `\`=0, `%`=14, NUL=9, CR=5, space=10, DEL=15, letters=11,
+/// everything else 12.
+pub fn initex_cat(c: char) -> u8 {
+    match c {
+        '\\' => ESCAPE,
+        '%' => COMMENT,
+        '\u{0}' => IGNORED,
+        '\r' => END_OF_LINE,
+        ' ' => SPACE,
+        '\u{7f}' => INVALID,
+        'a'..='z' | 'A'..='Z' => LETTER,
+        _ => OTHER,
+    }
+}
+
+/// plain.tex on top of IniTeX (The TeXbook p. 343): `{`=1 `}`=2 `$`=3 `&`=4 `#`=6 `^`=7 `^^K`=7
+/// `_`=8 `^^A`=8 tab=10 `~`=13 `^^L`=13.
+pub fn plain_cat(c: char) -> u8 {
+    match c {
+        '{' => BEGIN_GROUP,
+        '}' => END_GROUP,
+        '$' => MATH_SHIFT,
+        '&' => ALIGNMENT_TAB,
+        '#' => PARAMETER,
+        '^' | '\u{0b}' => SUPERSCRIPT,
+        '_' | '\u{01}' => SUBSCRIPT,
+        '\t' => SPACE,
+        '~' | '\u{0c}' => ACTIVE,
+        _ => initex_cat(c),
+    }
+}
+
+#[derive(Clone, Debug, PartialEq, Eq, Hash)]
+pub enum Tok {
+    /// A control sequence. The name is empty for `null_cs` (§354: escape character at the very
+    /// end of the buffer).
+    Cs(String),
+    /// A character token `(chr, cat)`; cat is one of 1,2,3,4,6,7,8,10,11,12,13. Space tokens are
+    /// always `(' ', 10)` (§347-348).
+    Char(char, u8),
+}
+
+impl Tok {
+    /// Rendering used by trace comparison: `\name` or the character.
+    pub fn text(&self) -> String {
+        match self {
+            Tok::Cs(n) => format!("\\{n}"),
+            Tok::Char(c, _) => c.to_string(),
+        }
+    }
+}
+
+/// Where a token started.
+#[derive(Clone, Copy, Debug, PartialEq, Eq, Hash)]
+pub struct Pos {
+    /// 1-based number of the line (= 1 + number of `\n` before the token's first character).
+    pub line: usize,
+    /// Column (in characters, 0-based) of the first source character of the token.
+    pub col_lo: usize,
+    /// Last column of the source span that produced the token's *first character*; differs from
+    /// `col_lo` only if that character came out of a `^^` reduction. A character appended as the
+    /// end-line character sits at the first trimmed position (= length of the trimmed line).
+    pub col_hi: usize,
+}
+
+#[derive(Clone, Debug, PartialEq, Eq)]
+pub enum Item {
+    Token(Tok, Pos),
+    /// §346: a character of category 15 was scanned (TeX prints an error and goes on; the
+    /// scanner state is unchanged).
+    Invalid(char, Pos),
+    /// A line other than the first has just been read into the buffer (bookkeeping only; TeX's
+    /// `\read` uses it).
+    NewLine,
+    End,
+}
+
+#[derive(Clone, Copy, Debug, PartialEq, Eq, Default, Hash)]
+pub struct Quirks {
+    /// Replace §352/§355's `^^xy` rule (two lowercase hex digits) by "not implemented": only
+    /// the single-character form exists.
+    pub no_hex: bool,
+    /// Replace "`^^c` with c >= 128 is not a reduction" by "both superscript characters are
+    /// silently dropped and scanning continues with c".
+    pub drop_carets_before_non_ascii: bool,
+}
+
+/// What the model did (feeds observation counters and the trigger predicates).
+#[derive(Clone, Copy, Debug, Default, PartialEq, Eq)]
+pub struct Stats {
+    pub lines: u32,
+    pub trimmed_spaces: u32,
+    pub reductions_main: u32,
+    pub reductions_in_name: u32,
+    pub hex_reductions: u32,
+    /// hex-digit pairs where §352/§355 reduce `^^xy` but the `no_hex` quirk did `^^x` instead
+    pub hex_suppressed: u32,
+    /// the result of a reduction was itself scanned as a sup_mark that started another reduction
+    pub recursive_reductions: u32,
+    /// `^^c` with c >= 128 seen at a place where TeX checks for a reduction
+    pub carets_before_non_ascii: u32,
+    /// ... and the quirk dropped the two characters
+    pub carets_dropped: u32,
+    /// two equal sup_mark characters at the end of the buffer (no third character: no reduction)
+    pub carets_at_line_end: u32,
+    pub par_tokens: u32,
+    pub eol_spaces: u32,
+    pub eol_skipped: u32,
+    pub spaces_skipped: u32,
+    pub comments: u32,
+    pub ignored: u32,
+    pub invalid: u32,
+    pub null_cs: u32,
+    pub multi_letter_cs: u32,
+    pub single_char_cs: u32,
+    pub multi_reduction_names: u32,
+}
+
+#[derive(Clone, Copy, Debug, PartialEq, Eq)]
+enum State {
+    NewLine,
+    MidLine,
+    SkipBlanks,
+}
+
+#[derive(Clone, Copy, Debug)]
+struct Cell {
+    c: char,
+    lo: usize,
+    hi: usize,
+}
+
+pub struct Lexer {
+    lines: Vec<String>,
+    /// number of lines read so far = line number of the line in `buf`
+    cur: usize,
+    /// TeX's `buffer[start..=limit]`
+    buf: Vec<Cell>,
+    /// TeX's `loc - start`
+    loc: usize,
+    state: State,
+    pub quirks: Quirks,
+    pub stats: Stats,
+}
+
+fn is_hex(c: char) -> bool {
+    c.is_ascii_digit() || ('a'..='f').contains(&c)
+}
+
+fn hex_val(c: char) -> u32 {
+    if c <= '9' {
+        c as u32 - '0' as u32
+    } else {
+        c as u32 - 'a' as u32 + 10
+    }
+}
+
+/// §352: `if c<@'100 then cur_chr:=c+@'100 else cur_chr:=c-@'100`
+fn flip64(c: char) -> char {
+    let u = c as u32;
+    debug_assert!(u < 128);
+    char::from_u32(if u < 64 { u + 64 } else { u - 64 }).unwrap()
+}
+
+/// Split a source text into TeX lines: a line ends at `\n`; a final line without `\n` is a line;
+/// the empty text has no lines.
+pub fn split_lines(source: &str) -> Vec<String> {
+    if source.is_empty() {
+        return vec![];
+    }
+    let mut v: Vec<String> = source.split('\n').map(|s| s.to_string()).collect();
+    if source.ends_with('\n') {
+        v.pop();
+    }
+    v
+}
+
+impl Lexer {
+    pub fn new(source: &str) -> Lexer {
+        Lexer::with_quirks(source, Quirks::default())
+    }
+
+    pub fn with_quirks(source: &str, quirks: Quirks) -> Lexer {
+        Lexer {
+            lines: split_lines(source),
+            cur: 0,
+            buf: vec![],
+            loc: 0,
+            state: State::NewLine,
+            quirks,
+            stats: Stats::default(),
+        }
+    }
+
+    /// Raw text of line `n` (1-based), without its `\n`.
+    pub fn line_text(&self, n: usize) -> &str {
+        &self.lines[n - 1]
+    }
+
+    pub fn num_lines(&self) -> usize {
+        self.lines.len()
+    }
+
+    /// §362 + §31: read the next line; `false` if the file has ended.
+    fn read_line(&mut self, end_line_char: Option<char>) -> bool {
+        self.buf.clear();
+        self.loc = 0;
+        if self.cur >= self.lines.len() {
+            return false;
+        }
+        let raw = &self.lines[self.cur];
+        self.cur += 1;
+        self.stats.lines += 1;
+        // input_ln: `last` is set after the last non-space character (only " ", whatever its
+        // category code is)
+        let trimmed = raw.trim_end_matches(' ');
+        let mut n = 0;
+        for c in trimmed.chars() {
+            self.buf.push(Cell { c, lo: n, hi: n });
+            n += 1;
+        }
+        self.stats.trimmed_spaces += (raw.chars().count() - n) as u32;
+        // `if end_line_char_inactive then decr(limit) else buffer[limit]:=end_line_char`
+        if let Some(e) = end_line_char {
+            self.buf.push(Cell { c: e, lo: n, hi: n });
+        }
+        true
+    }
+
+    fn pos(&self, lo: usize, hi: usize) -> Pos {
+        Pos {
+            line: self.cur,
+            col_lo: lo,
+            col_hi: hi,
+        }
+    }
+
+    /// `get_next` for a file (§343). `cat` and `end_line_char` are the values current *now*.
+    pub fn next(&mut self, cat: &dyn Fn(char) -> u8, end_line_char: Option<char>) -> Item {
+        // switch:
+        loop {
+            if self.loc >= self.buf.len() {
+                // §343 else-branch, §360
+                self.state = State::NewLine;
+                if !self.read_line(end_line_char) {
+                    return Item::End;
+                }
+                if self.cur > 1 {
+                    return Item::NewLine;
+                }
+                continue;
+            }
+            let cell = self.buf[self.loc];
+            self.loc += 1;
+            let mut cur_chr = cell.c;
+            let lo = cell.lo;
+            let mut hi = cell.hi;
+            let mut from_reduction = false;
+            // reswitch:
+            loop {
+                let cmd = cat(cur_chr);
+                match cmd {
+                    // §345
+                    IGNORED => {
+                        self.stats.ignored += 1;
+                        break;
+                    }
+                    SPACE if self.state != State::MidLine => {
+                        self.stats.spaces_skipped += 1;
+                        break;
+                    }
+                    // §354
+                    ESCAPE => {
+                        let name = self.scan_control_sequence(cat);
+                        return Item::Token(Tok::Cs(name), self.pos(lo, hi));
+                    }
+                    // §353
+                    ACTIVE => {
+                        self.state = State::MidLine;
+                        return Item::Token(Tok::Char(cur_chr, ACTIVE), self.pos(lo, hi));
+                    }
+                    // §352
+                    SUPERSCRIPT => {
+                        let len = self.buf.len();
+                        if self.loc < len && self.buf[self.loc].c == cur_chr {
+                            if self.loc + 1 < len {
+                                let c = self.buf[self.loc + 1].c;
+                                if (c as u32) < 128 {
+                                    if from_reduction {
+                                        self.stats.recursive_reductions += 1;
+                                    }
+                                    from_reduction = true;
+                                    self.stats.reductions_main += 1;
+                                    let third = self.loc + 1;
+                                    self.loc += 2;
+                                    if is_hex(c) && self.loc < len && is_hex(self.buf[self.loc].c) {
+                                        if self.quirks.no_hex {
+                                            self.stats.hex_suppressed += 1;
+                                        } else {
+                                            let cc = self.buf[self.loc].c;
+                                            hi = self.buf[self.loc].hi;
+                                            self.loc += 1;
+                                            self.stats.hex_reductions += 1;
+                                            cur_chr =
+                                                char::from_u32(16 * hex_val(c) + hex_val(cc)).unwrap();
+                                            continue;
+                                        }
+                                    }
+                                    hi = self.buf[third].hi;
+                                    cur_chr = flip64(c);
+                                    continue;
+                                }
+                                self.stats.carets_before_non_ascii += 1;
+                                if self.quirks.drop_carets_before_non_ascii {
+                                    self.stats.carets_dropped += 1;
+                                    self.loc += 1;
+                                    break;
+                                }
+                            } else {
+                                self.stats.carets_at_line_end += 1;
+                            }
+                        }
+                        self.state = State::MidLine;
+                        return Item::Token(Tok::Char(cur_chr, SUPERSCRIPT), self.pos(lo, hi));
+                    }
+                    // §346
+                    INVALID => {
+                        self.stats.invalid += 1;
+                        return Item::Invalid(cur_chr, self.pos(lo, hi));
+                    }
+                    // §347-§351
+                    SPACE => {
+                        // mid_line+spacer
+                        self.state = State::SkipBlanks;
+                        return Item::Token(Tok::Char(' ', SPACE), self.pos(lo, hi));
+                    }
+                    END_OF_LINE => {
+                        self.loc = self.buf.len();
+                        match self.state {
+                            State::MidLine => {
+                                self.stats.eol_spaces += 1;
+                                return Item::Token(Tok::Char(' ', SPACE), self.pos(lo, hi));
+                            }
+                            State::SkipBlanks => {
+                                self.stats.eol_skipped += 1;
+                                break;
+                            }
+                            State::NewLine => {
+                                self.stats.par_tokens += 1;
+                                return Item::Token(Tok::Cs("par".into()), self.pos(lo, hi));
+                            }
+                        }
+                    }
+                    COMMENT => {
+                        self.stats.comments += 1;
+                        self.loc = self.buf.len();
+                        break;
+                    }
+                    _ => {
+                        // left_brace, right_brace, math_shift, tab_mark, mac_param, sub_mark,
+                        // letter, other_char
+                        self.state = State::MidLine;
+                        return Item::Token(Tok::Char(cur_chr, cmd), self.pos(lo, hi));
+                    }
+                }
+            }
+        }
+    }
+
+    /// §355 "If an expanded code is present, reduce it and goto start_cs". `k` indexes the
+    /// character after `cur_chr`. Returns true if the buffer was rewritten.
+    fn reduce_in_name(&mut self, k: usize, cur_chr: char, cat_cur: u8) -> bool {
+        let len = self.buf.len();
+        // `if buffer[k]=cur_chr then if cat=sup_mark then if k<limit`
+        if !(cat_cur == SUPERSCRIPT && k < len && self.buf[k].c == cur_chr) {
+            return false;
+        }
+        if k + 1 >= len {
+            self.stats.carets_at_line_end += 1;
+            return false;
+        }
+        let c = self.buf[k + 1].c;
+        if (c as u32) >= 128 {
+            self.stats.carets_before_non_ascii += 1;
+            if self.quirks.drop_carets_before_non_ascii {
+                self.stats.carets_dropped += 1;
+                self.buf.drain(k - 1..=k);
+                return true;
+            }
+            return false;
+        }
+        let mut d = 2;
+        if is_hex(c) && k + 2 < len && is_hex(self.buf[k + 2].c) {
+            if self.quirks.no_hex {
+                self.stats.hex_suppressed += 1;
+            } else {
+                d = 3;
+            }
+        }
+        let new_c = if d > 2 {
+            self.stats.hex_reductions += 1;
+            char::from_u32(16 * hex_val(c) + hex_val(self.buf[k + 2].c)).unwrap()
+        } else {
+            flip64(c)
+        };
+        self.stats.reductions_in_name += 1;
+        // buffer[k-1]:=...; the remainder of the line moves down by d
+        self.buf[k - 1].c = new_c;
+        self.buf[k - 1].hi = self.buf[k - 1 + d].hi;
+        self.buf.drain(k..k + d);
+        true
+    }
+
+    /// §354-§356; on entry `loc` is just after the escape character.
+    fn scan_control_sequence(&mut self, cat: &dyn Fn(char) -> u8) -> String {
+        if self.loc >= self.buf.len() {
+            // `cur_cs:=null_cs {state is irrelevant in this case}`
+            self.stats.null_cs += 1;
+            return String::new();
+        }
+        let mut passes = 0;
+        // start_cs:
+        loop {
+            passes += 1;
+            if passes == 3 {
+                // at least two reductions inside one control-sequence name
+                self.stats.multi_reduction_names += 1;
+            }
+            let len = self.buf.len();
+            let mut k = self.loc;
+            let mut cur_chr = self.buf[k].c;
+            let mut ct = cat(cur_chr);
+            k += 1;
+            self.state = if ct == LETTER || ct == SPACE {
+                State::SkipBlanks
+            } else {
+                State::MidLine
+            };
+            if ct == LETTER && k < len {
+                // §356
+                loop {
+                    cur_chr = self.buf[k].c;
+                    ct = cat(cur_chr);
+                    k += 1;
+                    if ct != LETTER || k >= len {
+                        break;
+                    }
+                }
+                if self.reduce_in_name(k, cur_chr, ct) {
+                    continue;
+                }
+                if ct != LETTER {
+                    k -= 1;
+                }
+                if k > self.loc + 1 {
+                    let name: String = self.buf[self.loc..k].iter().map(|c| c.c).collect();
+                    self.loc = k;
+                    self.stats.multi_letter_cs += 1;
+                    return name;
+                }
+            } else if self.reduce_in_name(k, cur_chr, ct) {
+                continue;
+            }
+            let name = self.buf[self.loc].c.to_string();
+            self.loc += 1;
+            self.stats.single_char_cs += 1;
+            return name;
+        }
+    }
+}
+
+/// Convenience: lex a whole text under a fixed table and end-line character.
+pub fn lex_all(
+    source: &str,
+    cat: &dyn Fn(char) -> u8,
+    end_line_char: Option<char>,
+    quirks: Quirks,
+) -> (Vec<Item>, Stats) {
+    let mut lx = Lexer::with_quirks(source, quirks);
+    let mut out = vec![];
+    loop {
+        let it = lx.next(cat, end_line_char);
+        if it == Item::End {
+            break;
+        }
+        out.push(it);
+    }
+    (out, lx.stats)
+}
+
+#[cfg(test)]
+mod tests {
+    use super::*;
+
+    fn toks(src: &str, elc: Option<char>) -> Vec<Tok> {
+        lex_all(src, &plain_cat, elc, Quirks::default())
+            .0
+            .into_iter()
+            .filter_map(|i| match i {
+                Item::Token(t, _) => Some(t),
+                _ => None,
+            })
+            .collect()
+    }
+
+    #[test]
+    fn texbook_8_4() {
+        // $x^2$~ \TeX ^^C  -> $ x ^ 2 $ ~ space \TeX ^^C(other) space
+        let t = toks(" $x^2$~ \\TeX ^^C", Some('\r'));
+        assert_eq!(
+            t,
+            vec![
+                Tok::Char('$', 3),
+                Tok::Char('x', 11),
+                Tok::Char('^', 7),
+                Tok::Char('2', 12),
+                Tok::Char('$', 3),
+                Tok::Char('~', 13),
+                Tok::Char(' ', 10),
+                Tok::Cs("TeX".into()),
+                Tok::Char('\u{3}', 12),
+                Tok::Char(' ', 10),
+            ]
+        );
+    }
+
+    #[test]
+    fn hex_and_recursion() {
+        assert_eq!(toks("^^5e", None), vec![Tok::Char('^', 7)]);
+        // ^^5e^5ea: ^^5e -> ^ ; then ^ ^ 5e -> hex again -> ^ ; then `^a`? no: after the second
+        // reduction cur_chr='^', buffer[loc]='a' -> plain superscript, then letter a
+        assert_eq!(
+            toks("^^5e^5ea", None),
+            vec![Tok::Char('^', 7), Tok::Char('a', 11)]
+        );
+        assert_eq!(toks("\\^^5e^5ea", None), vec![Tok::Cs("^".into()), Tok::Char('a', 11)]);
+        assert_eq!(toks("\\a^^62c", None), vec![Tok::Cs("abc".into())]);
+    }
+
+    #[test]
+    fn non_ascii_after_carets() {
+        assert_eq!(
+            toks("^^é", None),
+            vec![Tok::Char('^', 7), Tok::Char('^', 7), Tok::Char('é', 12)]
+        );
+        let q = Quirks {
+            drop_carets_before_non_ascii: true,
+            ..Default::default()
+        };
+        let (items, _) = lex_all("\\a^^é", &plain_cat, None, q);
+        assert_eq!(items.len(), 2);
+    }
+}
